@@ -12,16 +12,14 @@ Definition s_1 := b#"1".
 Definition s_0 := b#"0".
 
 (* ---------------- Marshal (for a value whose type conforms to t) ---------------- *)
-Fixpoint json_marshal_at (fuel : nat) (v : value) (t : ty) : res jv :=
-  match fuel with
-  | O => OutOfFuel
-  | S f =>
+(* one level of the encoder; [rec] encodes the members (the encoder with one unit of fuel less) *)
+Definition json_marshal_step (rec : value -> ty -> res jv) (v : value) (t : ty) : res jv :=
     if is_marked v then Err OtherError else
     if negb (is_known v) then Err OtherError else
     if is_dyn t && negb (is_dyn (vty v)) then
       (* marshalDynamic: {"value": ..., "type": ...} *)
       match type_to_json (vty v) with
-      | Ok tj => match json_marshal_at f v (vty v) with
+      | Ok tj => match rec v (vty v) with
                  | Ok j => Ok (JObj [(s_value, j); (s_type, tj)])
                  | Err _ => Err OtherError
                  | r => r
@@ -37,7 +35,7 @@ Fixpoint json_marshal_at (fuel : nat) (v : value) (t : ty) : res jv :=
         do js <- (fix go (l : list payload) : res (list jv) :=
                     match l with
                     | [] => Ok []
-                    | x :: l' => do j <- json_marshal_at f (V (match vty v with TList ev => ev | _ => e end) x) e; do r <- go l'; Ok (j :: r)
+                    | x :: l' => do j <- rec (V (match vty v with TList ev => ev | _ => e end) x) e; do r <- go l'; Ok (j :: r)
                     end) l;
         Ok (JArr js)
     | TSet e, PSet bs =>
@@ -46,7 +44,7 @@ Fixpoint json_marshal_at (fuel : nat) (v : value) (t : ty) : res jv :=
         do js <- (fix go (l : list payload) : res (list jv) :=
                     match l with
                     | [] => Ok []
-                    | x :: l' => do j <- json_marshal_at f (V ev x) e; do r <- go l'; Ok (j :: r)
+                    | x :: l' => do j <- rec (V ev x) e; do r <- go l'; Ok (j :: r)
                     end) l;
         Ok (JArr js)
     | TMap e, PMap m =>
@@ -54,14 +52,14 @@ Fixpoint json_marshal_at (fuel : nat) (v : value) (t : ty) : res jv :=
         do kvs <- (fix go (l : list (str * payload)) : res (list (str * jv)) :=
                      match l with
                      | [] => Ok []
-                     | kv :: l' => do j <- json_marshal_at f (V ev (snd kv)) e; do r <- go l'; Ok ((fst kv, j) :: r)
+                     | kv :: l' => do j <- rec (V ev (snd kv)) e; do r <- go l'; Ok ((fst kv, j) :: r)
                      end) m;
         Ok (JObj kvs)
     | TTuple es, PSeq l =>
         let evs := match vty v with TTuple evs => evs | _ => [] end in
         do js <- (fix go (ts : list ty) (tvs : list ty) (l : list payload) : res (list jv) :=
                     match ts, tvs, l with
-                    | te :: ts', tv :: tvs', x :: l' => do j <- json_marshal_at f (V tv x) te; do r <- go ts' tvs' l'; Ok (j :: r)
+                    | te :: ts', tv :: tvs', x :: l' => do j <- rec (V tv x) te; do r <- go ts' tvs' l'; Ok (j :: r)
                     | _, _, [] => Ok []
                     | _, _, _ => Panic       (* etys[i] out of range *)
                     end) es evs l;
@@ -73,14 +71,18 @@ Fixpoint json_marshal_at (fuel : nat) (v : value) (t : ty) : res jv :=
                      | [] => Ok []
                      | kt :: l' =>
                          match lookup (fst kt) avs, lookup (fst kt) m with
-                         | Some tv, Some x => do j <- json_marshal_at f (V tv x) (snd kt); do r <- go l'; Ok ((fst kt, j) :: r)
+                         | Some tv, Some x => do j <- rec (V tv x) (snd kt); do r <- go l'; Ok ((fst kt, j) :: r)
                          | _, _ => Panic   (* GetAttr of an undeclared attribute *)
                          end
                      end) attrs;
         Ok (JObj kvs)
     | TCap _, _ => Err OtherError          (* capsule encoding is delegated to encoding/json: not modelled *)
     | _, _ => Panic
-    end
+    end.
+Fixpoint json_marshal_at (fuel : nat) : value -> ty -> res jv :=
+  match fuel with
+  | O => fun _ _ => OutOfFuel
+  | S f => json_marshal_step (json_marshal_at f)
   end.
 Definition json_marshal (v : value) (t : ty) : res jv := json_marshal_at (S (psize (vp v)) + ty_size t + ty_size (vty v)) v t.
 
